@@ -569,3 +569,59 @@ def _conj(e):
     if e.k == 'Binary' and e.a['op'] == '&&':
         return _conj(e.c[0]) + _conj(e.c[1])
     return [e]
+
+
+def ilu_empty_column_rule(chk, cid, prog, p, cfgname):
+    """ILU replaces a zero pivot by writing a small value into a fill position of the column, which ilu_?pivotL looks for in the row list of the
+    column's supernode; that only works if every supernode has at least as many rows as columns.  ilu_?column_dfs lets column j join the
+    supernode of j-1 when its structure has exactly one row less; for a column whose L part came out empty (nextl == jptr) after a column
+    holding only its pivot that test passes (0 == 1 - 1) and a two-column supernode with a single row results.  Among the conditions that
+    start a new supernode there must therefore be one that holds whenever the column is empty: substituting nextl := jptr makes it true."""
+    from ..facts import strip, canon, loc, const_value
+    from ..ir import pretty, N
+    from ..run import AnalysisBroken
+    f = prog.func('ilu_%scolumn_dfs' % p)
+    if f is None:
+        raise AnalysisBroken('ilu_%scolumn_dfs not found' % p)
+    chk.saw(unit=f.unit, func=f.unit + ':' + f.name)
+    starts = []
+    for x in f.body.walk():
+        if x.k == 'If':
+            th = x.c[1]
+            while th.k == 'Block' and len(th.c) == 1:
+                th = th.c[0]
+            if th.k == 'Assign' and strip(th.c[0]).k == 'Ref' and strip(th.c[0]).a.get('name') == 'jsuper' and strip(th.c[1]).k in ('Unary', 'Int', 'Paren', 'Ref') \
+                    and const_value(th.c[1]) in (-1, None) and 'EMPTY' in (pretty(th.c[1]) + str(th.c[1].mac or '')) or \
+                    (th.k == 'Assign' and strip(th.c[0]).k == 'Ref' and strip(th.c[0]).a.get('name') == 'jsuper' and const_value(th.c[1]) == -1):
+                starts.append(x)
+    nextl = next((v for v in list(f.locals.values()) if v.a.get('name') == 'nextl'), None)
+    jptr = next((v for v in list(f.locals.values()) if v.a.get('name') == 'jptr'), None)
+    if not starts or nextl is None or jptr is None:
+        raise AnalysisBroken('%s: new-supernode conditions / nextl / jptr not found' % f.name)
+
+    def subst(e):
+        if e.k == 'Ref' and e.a.get('name') == 'nextl':
+            return N('Ref', e.t, [], dict(e.a, name='jptr', id=jptr.a.get('id')), e.line, e.mac)
+        if not e.c:
+            return e
+        return N(e.k, e.t, [subst(c) for c in e.c], e.a, e.line, e.mac)
+
+    def holds(e):
+        e = strip(e)
+        if e.k == 'Binary' and e.a['op'] == '||':
+            return holds(e.c[0]) or holds(e.c[1])
+        if e.k == 'Binary' and e.a['op'] == '&&':
+            return holds(e.c[0]) and holds(e.c[1])
+        if e.k == 'Binary' and e.a['op'] in ('==', '<=', '>='):
+            return canon(e.c[0]) == canon(e.c[1])
+        return False
+    inst = '%s:empty-column-starts-a-new-supernode' % f.name
+    hit = [x for x in starts if holds(subst(x.c[0]))]
+    if hit:
+        chk.ok(cid, inst, sample='`%s` holds for nextl == jptr; %d new-supernode conditions in all' % (pretty(hit[0].c[0])[:40], len(starts)))
+    else:
+        chk.violate(cid, inst, loc(f, starts[0]), f.name,
+                    'none of the conditions that start a new supernode (%s) is implied by an empty L column (nextl == jptr): after a column that holds only its '
+                    'pivot, the empty column joins that supernode, which then has fewer rows than columns, and the fill position that replaces the zero pivot '
+                    'does not exist (perm_r keeps a -1)' % '; '.join(pretty(x.c[0])[:40] for x in starts), cfgname=cfgname)
+    return 1
